@@ -44,7 +44,7 @@ def strip(c):
     return {k: c[k] for k in ('alu', 'words', 'fill', 'pre', 'set', 'wide', 'kinds', 'class') if k in c}
 
 
-def run_impl(binary, cases=None, seed=1, per=30):
+def run_impl(binary, cases=None, seed=1, per=30, perv=2):
     tmp = os.path.join(vlib.BUILD, 'c03_%d.json' % os.getpid())
     if cases is not None:
         inp = tmp + '.in'
@@ -52,12 +52,38 @@ def run_impl(binary, cases=None, seed=1, per=30):
         rc, log = vlib.run([binary, '--replay', inp, '--out', tmp])
         os.remove(inp)
     else:
-        rc, log = vlib.run([binary, '--seed', str(seed), '--per', str(per), '--perv', '0', '--out', tmp])
+        rc, log = vlib.run([binary, '--seed', str(seed), '--per', str(per), '--perv', str(perv), '--kernels', vlib.REPO, '--out', tmp])
     if rc != 0:
         return None, log
     out = json.load(open(tmp))
     os.remove(tmp)
     return out, log
+
+
+def proved_rows():
+    """The (alu, format, opcode) rows covered by impl_eq_spec theorems, read from Coq."""
+    src = os.path.join(vlib.COQ, 'cases', 'C03_rows.v')
+    os.makedirs(os.path.dirname(src), exist_ok=True)
+    open(src, 'w').write('From Coq Require Import ZArith List.\nImport ListNotations.\nFrom VIsa Require Import IsaState ExecVThm.\nOpen Scope Z_scope.\nSet Printing Depth 100000.\nSet Printing Width 200.\n'
+                         'Definition G := Eval vm_compute in (proved_rows GCN3).\nPrint G.\n'
+                         'Definition C := Eval vm_compute in (proved_rows CDNA3).\nPrint C.\n')
+    rc, log = vlib.run(['coqc'] + vlib.coq_q_args() + [os.path.relpath(src, vlib.COQ)], cwd=vlib.COQ, timeout=300)
+    for ext in ('.v', '.vo', '.vok', '.vos', '.glob'):
+        try:
+            os.remove(src[:-2] + ext)
+        except OSError:
+            pass
+    res = set()
+    if rc != 0:
+        return res
+    import re
+    parts = re.split(r'\n(?=[GC] =)', log)
+    for part in parts:
+        alu = 'gcn3' if part.lstrip().startswith('G =') else 'cdna3' if part.lstrip().startswith('C =') else None
+        if alu:
+            for f, op in re.findall(r'\(\s*F_(\w+),\s*(\d+)\s*\)', part):
+                res.add((alu, f, int(op)))
+    return res
 
 
 def nontrivial(c):
@@ -76,7 +102,8 @@ def main(argv):
     rep.assumptions = ['states are well formed (registers hold values of their width, SCC is 0/1); operand kinds as listed by adm32/adm64/admd32/admd64',
                        'PC handed to the ALU is the address of the next instruction (emu/computeunit.go advances it before Run)']
     thorough = vlib.tier() == 'thorough'
-    per = 150 if thorough else 20
+    per = 150 if thorough else 15
+    perv = 12 if thorough else 1
     replay_file = argv[argv.index('--replay') + 1] if '--replay' in argv else None
 
     ok, log, binary = vlib.go_build('c03')
@@ -111,7 +138,7 @@ def main(argv):
             out, log = run_impl(binary, cases=[strip(c) for c in corpus])
             cases = out['cases'] if out else []
         ncorpus = len(cases)
-        out, log = run_impl(binary, seed=vlib.seed(), per=per)
+        out, log = run_impl(binary, seed=vlib.seed(), per=per, perv=perv)
         if out is None:
             rep.obligation('harness run', False)
             rep.violation({'broken': 'harness run failed', 'log': log[-4000:]}, nofail=True)
@@ -121,7 +148,7 @@ def main(argv):
     undecodable = [c for c in cases if c.get('nodec')]
     cases = [c for c in cases if not c.get('nodec')]
 
-    okc, mism, clog = vlib.eval_cases(PROP, HEADER, [c['coq'] for c in cases], shard_size=200)
+    okc, mism, clog = vlib.eval_cases(PROP, HEADER, [c['coq'] for c in cases], shard_size=150, timeout=300)
     det = dict(mism)
     impl_bad = [i for i in range(len(cases)) if det.get(i, 0) & 1]
     spec_bad = [i for i in range(len(cases)) if det.get(i, 0) & 2]
@@ -144,6 +171,36 @@ def main(argv):
                           key=kstr, replay_obj={'property': PROP, 'what': text, 'case': c})
     rep.obligation('monitor: every run equals ExecSpec or belongs to a listed finding (%d runs deviate, all listed)' % len(spec_bad), not viol)
 
+    # ---- opcode closure of the shipped kernels vs coverage
+    proved = proved_rows()
+    rep.obligation('proved row list read from Coq (%d rows)' % len(proved), len(proved) > 0)
+    spec_defined = {(c['alu'], c['fmt'], c['op']) for i, c in enumerate(cases) if not (det.get(i, 0) & 4)}
+    not_impl = {(o['alu'], o['fmt'], o['op']) for o in ops if not o['impl'] and 'outside the ALU' not in o.get('note', '')}
+    closure = (out or {}).get('closure') or []
+    cl = {'proved': [], 'differential_only': [], 'handled_outside_alu': [], 'not_implemented_by_alu': [], 'not_modelled': []}
+    for e in closure:
+        k = (e['alu'], e['fmt'], e['op'])
+        tag = '%s/%s/%d %s' % (e['alu'], e['fmt'], e['op'], e['name'])
+        if k in proved:
+            cl['proved'].append(tag)
+        elif e['fmt'] == 'SOPP' and e['op'] in (1, 10):
+            cl['handled_outside_alu'].append(tag)
+        elif k in spec_defined:
+            cl['differential_only'].append(tag)
+        elif k in not_impl:
+            cl['not_implemented_by_alu'].append(tag)
+        else:
+            cl['not_modelled'].append(tag)
+    pairs = collections.defaultdict(set)
+    for cat, tags in cl.items():
+        for t in tags:
+            pairs['/'.join(t.split(' ')[0].split('/')[1:])].add(cat)
+    def best(cs):
+        for c in ('proved', 'differential_only', 'handled_outside_alu', 'not_implemented_by_alu', 'not_modelled'):
+            if c in cs:
+                return c
+    pair_hist = collections.Counter(best(v) for v in pairs.values())
+    all_proved_pairs = sum(1 for v in pairs.values() if v == {'proved'})
     hist = collections.Counter((c['alu'], c['fmt']) for c in cases)
     impl_ops = [(o['alu'], o['fmt'], o['op']) for o in ops if o['impl']]
     modelled = sorted({(c['alu'], c['fmt'], c['op']) for c in cases})
@@ -159,13 +216,24 @@ def main(argv):
         'cases_per_alu_format': {'%s/%s' % k: v for k, v in sorted(hist.items())},
         'operand_kind_histogram': dict(collections.Counter(k for c in cases for k in (c.get('kinds') or []))),
         'panics_observed': sum(1 for c in cases if c.get('panic')),
-        'implemented_scalar_opcodes': len([o for o in impl_ops if o[1] != 'VOP2']),
-        'implemented_vop2_opcodes_not_modelled': len([o for o in impl_ops if o[1] == 'VOP2']),
+        'implemented_scalar_opcodes': len([o for o in impl_ops if not o[1].startswith('VOP')]),
+        'implemented_vector_integer_opcodes_modelled': len([o for o in impl_ops if o[1].startswith('VOP')]),
         'opcodes_modelled_and_run': len(modelled),
         'opcodes_not_implemented_by_alu': len([o for o in ops if not o['impl']]),
         'model_mismatches': len(impl_bad), 'spec_deviations': len(spec_bad), 'unlisted_deviations': len(viol),
         'outside_spec_subset': len(unspec), 'undecodable': len(undecodable),
         'known_finding_classes': len(known),
+        'shipped_kernel_closure': {
+            'stats': (out or {}).get('closure_stats'),
+            'alu_format_opcode_triples': len(closure),
+            'triples_by_coverage': {k: len(v) for k, v in cl.items()},
+            'distinct_format_opcode_pairs': len(pairs),
+            'pairs_by_best_coverage': dict(pair_hist),
+            'pairs_proved_on_every_alu_that_ships_them': all_proved_pairs,
+            'differential_only': cl['differential_only'],
+            'not_implemented_by_alu': cl['not_implemented_by_alu'],
+            'not_modelled': cl['not_modelled'],
+        },
     })
     rep.samples = [{k: c[k] for k in ('alu', 'name', 'words', 'pre', 'post', 'kinds')} for c in cases[ncorpus:ncorpus + 3]]
 
